@@ -740,6 +740,177 @@ def _fold_pointer_subscripts(root):
     return n_
 
 
+_NEG_OP = {">": "<=", "<=": ">", "<": ">=", ">=": "<", "==": "!=", "!=": "=="}
+_CANON_OPS = (">", "<", "!=")          # the orientation a two-way decision is stored in
+
+
+def _jneg(cond):
+    c = cond
+    while isinstance(c, dict) and c.get("kind") in ("ParenExpr", "ImplicitCastExpr") and c.get("inner"):
+        c = c["inner"][0]
+    if c.get("kind") == "BinaryOperator" and c.get("opcode") in _NEG_OP:
+        n = dict(c)
+        n["opcode"] = _NEG_OP[c["opcode"]]
+        return n
+    if c.get("kind") == "UnaryOperator" and c.get("opcode") == "!":
+        x = c["inner"][0]
+        while isinstance(x, dict) and x.get("kind") in ("ParenExpr", "ImplicitCastExpr") and x.get("inner") and x["inner"][0].get("kind") in (
+                "ParenExpr", "ImplicitCastExpr", "CallExpr", "BinaryOperator", "DeclRefExpr", "UnaryOperator"):
+            x = x["inner"][0]
+        return x
+    return {"kind": "UnaryOperator", "opcode": "!", "isPostfix": False, "type": {"qualType": "int"}, "valueCategory": "prvalue",
+            "range": cond.get("range", {}), "inner": [cond]}
+
+
+def _ends_with_jump(n):
+    if not isinstance(n, dict):
+        return False
+    if n.get("kind") in ("BreakStmt", "ReturnStmt", "ContinueStmt", "GotoStmt"):
+        return True
+    if n.get("kind") == "CompoundStmt" and n.get("inner"):
+        return _ends_with_jump(n["inner"][-1])
+    return False
+
+
+def _cond_op(cond):
+    c = cond
+    while isinstance(c, dict) and c.get("kind") in ("ParenExpr", "ImplicitCastExpr") and c.get("inner"):
+        c = c["inner"][0]
+    if c.get("kind") == "BinaryOperator":
+        return c.get("opcode")
+    if c.get("kind") == "UnaryOperator" and c.get("opcode") == "!":
+        return "!"
+    return None
+
+
+def _normalise_control(root):
+    """AST normalisation of control flow (one spelling per decision):
+      * `return c ? a : b;`                      ->  `if (c) return a;  return b;`
+      * `if (c) A else JUMP`                     ->  `if (!c) JUMP else A`           (the branch that leaves comes first)
+      * `if (c) return a;  return b;` with c written with <=, >=, == or !            ->  the complementary test with the returns exchanged
+      * `while (1) B`                            ->  `for (;;) B`
+      * `i = a;  while (i < n) { B; i++; }`      ->  `for (i = a; i < n; i++) B`     (B without continue)
+    """
+    count = 0
+    for n in list(_jwalk(root)):
+        if n.get("kind") != "CompoundStmt":
+            continue
+        inner = n.get("inner") or []
+        i = 0
+        while i < len(inner):
+            s_ = inner[i]
+            if not isinstance(s_, dict):
+                i += 1
+                continue
+            # return c ? a : b
+            if s_.get("kind") == "ReturnStmt" and s_.get("inner"):
+                e = _strip_j(s_["inner"][0])
+                if e.get("kind") == "ConditionalOperator" and len(e.get("inner", [])) == 3:
+                    c, a, b = e["inner"]
+                    inner[i:i + 1] = [{"kind": "IfStmt", "range": s_.get("range", {}), "inner": [c, {"kind": "ReturnStmt", "range": s_.get("range", {}), "inner": [a]}]},
+                                      {"kind": "ReturnStmt", "range": s_.get("range", {}), "inner": [b]}]
+                    count += 1
+                    continue
+            if s_.get("kind") == "IfStmt":
+                parts = s_.get("inner") or []
+                if len(parts) == 3 and _ends_with_jump(parts[2]) and not _ends_with_jump(parts[1]):
+                    s_["inner"] = [_jneg(parts[0]), parts[2], parts[1]]
+                    count += 1
+                    parts = s_["inner"]
+                if len(parts) == 2 and _ends_with_jump(parts[1]) and i + 1 < len(inner) and isinstance(inner[i + 1], dict) \
+                        and inner[i + 1].get("kind") == "ReturnStmt" and i + 2 == len(inner):
+                    body = parts[1]
+                    r1 = body if body.get("kind") == "ReturnStmt" else (body["inner"][0] if body.get("kind") == "CompoundStmt" and len(body.get("inner", [])) == 1 else None)
+                    op = _cond_op(parts[0])
+                    if r1 is not None and r1.get("kind") == "ReturnStmt" and op is not None and op not in _CANON_OPS:
+                        r2 = inner[i + 1]
+                        s_["inner"] = [_jneg(parts[0]), r2]
+                        inner[i + 1] = r1
+                        count += 1
+            if s_.get("kind") == "WhileStmt" and len(s_.get("inner") or []) == 2:
+                cond, body = s_["inner"]
+                c0 = _strip_j(cond)
+                if c0.get("kind") == "IntegerLiteral" and str(c0.get("value")) not in ("0",):
+                    s_["kind"] = "ForStmt"
+                    s_["inner"] = [{}, {}, {}, {}, body]
+                    count += 1
+                elif body.get("kind") == "CompoundStmt" and body.get("inner") and i > 0 and isinstance(inner[i - 1], dict):
+                    init = inner[i - 1]
+                    last = body["inner"][-1]
+                    i0 = _strip_j(init)
+                    l0 = _strip_j(last)
+                    var = None
+                    if i0.get("kind") == "BinaryOperator" and i0.get("opcode") == "=":
+                        v_ = _strip_j(i0["inner"][0])
+                        if v_.get("kind") == "DeclRefExpr":
+                            var = v_["referencedDecl"]["id"]
+                    inc_ok = False
+                    if var is not None:
+                        if l0.get("kind") == "UnaryOperator" and l0.get("opcode") in ("++",):
+                            t_ = _strip_j(l0["inner"][0])
+                            inc_ok = t_.get("kind") == "DeclRefExpr" and t_["referencedDecl"]["id"] == var
+                        elif l0.get("kind") == "CompoundAssignOperator" and l0.get("opcode") == "+=":
+                            t_ = _strip_j(l0["inner"][0])
+                            r_ = _strip_j(l0["inner"][1])
+                            inc_ok = t_.get("kind") == "DeclRefExpr" and t_["referencedDecl"]["id"] == var and r_.get("kind") == "IntegerLiteral" and str(r_.get("value")) == "1"
+                        elif l0.get("kind") == "BinaryOperator" and l0.get("opcode") == "=":
+                            t_ = _strip_j(l0["inner"][0])
+                            r_ = _strip_j(l0["inner"][1])
+                            if t_.get("kind") == "DeclRefExpr" and t_["referencedDecl"]["id"] == var and r_.get("kind") == "BinaryOperator" and r_.get("opcode") == "+":
+                                a_, b_ = _strip_j(r_["inner"][0]), _strip_j(r_["inner"][1])
+                                inc_ok = a_.get("kind") == "DeclRefExpr" and a_["referencedDecl"]["id"] == var and b_.get("kind") == "IntegerLiteral" and str(b_.get("value")) == "1"
+                    cond_uses = var is not None and any(x.get("kind") == "DeclRefExpr" and x.get("referencedDecl", {}).get("id") == var for x in _jwalk(cond))
+                    no_continue = not any(x.get("kind") == "ContinueStmt" for x in _jwalk(body))
+                    written_else = var is not None and sum(
+                        1 for x in _jwalk({"inner": body["inner"][:-1]}) if x.get("kind") in ("BinaryOperator", "CompoundAssignOperator", "UnaryOperator")
+                        and x.get("opcode") in ("=", "+=", "-=", "++", "--") and _strip_j(x["inner"][0]).get("referencedDecl", {}).get("id") == var)
+                    if inc_ok and cond_uses and no_continue and not written_else:
+                        inc_node = last if last.get("kind") in ("UnaryOperator", "CompoundAssignOperator", "BinaryOperator") else l0
+                        newbody = dict(body)
+                        newbody["inner"] = body["inner"][:-1]
+                        s_["kind"] = "ForStmt"
+                        s_["inner"] = [init, {}, cond, inc_node, newbody]
+                        del inner[i - 1]
+                        count += 1
+                        continue
+            i += 1
+    return count
+
+
+def _rename_c_functions(roots, in_main, fname=None):
+    """AST normalisation: a function of the C sources that existed when the rules were written is missing while a new one with the same
+    number of parameters is defined - a rename with all call sites (fifo_add -> fifo_push): stored under the old name."""
+    import json as _json
+    pin = _json.load(open(os.path.join(os.path.dirname(os.path.abspath(__file__)), "pin_tables.json")))["c_functions"].get(fname, {})
+    if not pin:
+        return 0
+    present = {}
+    for r in roots:
+        tops = r.get("inner", []) if r.get("kind") == "TranslationUnitDecl" else [r]
+        for n in tops:
+            if n.get("kind") == "FunctionDecl" and in_main(n) and any(isinstance(c, dict) and c.get("kind") == "CompoundStmt" for c in n.get("inner", [])):
+                present[n["name"]] = sum(1 for c in n.get("inner", []) if isinstance(c, dict) and c.get("kind") == "ParmVarDecl")
+    if not present:
+        return 0
+    missing = {k: v for k, v in pin.items() if k not in present}
+    new = {k: v for k, v in present.items() if k not in pin}
+    ren = {}
+    for old, ar in missing.items():
+        cands = [k for k, a in new.items() if a == ar]
+        if len(cands) == 1 and sum(1 for m_, a in missing.items() if a == ar) == 1:
+            ren[cands[0]] = old
+    if not ren:
+        return 0
+    for r in roots:
+        for n in _jwalk(r):
+            if n.get("kind") == "FunctionDecl" and n.get("name") in ren:
+                n["name"] = ren[n["name"]]
+            rd = n.get("referencedDecl")
+            if isinstance(rd, dict) and rd.get("kind") == "FunctionDecl" and rd.get("name") in ren:
+                rd["name"] = ren[rd["name"]]
+    return len(ren)
+
+
 def _number(roots):
     """Execution-order positions: `_pb` on entry, `_pe` on exit of every node, in one pre/post-order numbering of the normalised tree.
     Every 'lies between' test of the analyses uses these, never source offsets (an inlined helper body has the offsets of its definition)."""
@@ -792,6 +963,13 @@ class CFile:
         if need_python and len(inc) < 2:
             raise AnalysisError("Python.h / numpy headers not found for clang")
         roots = _multi_json(_dump(path, filt, inc))
+        self.norm_renamed = _rename_c_functions(roots, self._in_main, os.path.basename(path)) if filt is None else 0
+        self.norm_control = 0
+        for r in roots:
+            tops = r.get("inner", []) if r.get("kind") == "TranslationUnitDecl" else [r]
+            for n in tops:
+                if n.get("kind") == "FunctionDecl" and self._in_main(n):
+                    self.norm_control += _normalise_control(n)
         for r in roots:
             _normalise(r)
         self.norm_inlined = _inline_void_helpers(roots)
